@@ -2,12 +2,14 @@ import Cbor.Gen.MemoryUtils
 import Cbor.Gen.Effects
 import Cbor.Gen.HeaderSize
 import Cbor.Lemmas.UInt
+import Cbor.Lemmas.Tactics
 /-!
 # C20 — size arithmetic never wraps
 
 Theorems over the **generated** `memory_utils.c` definitions (`Gen.*`, regenerated from /repo on
 every run).  All quantifiers range over every 64-bit operand (2^128 pairs), no bound.
 -/
+set_option linter.unusedSimpArgs false
 namespace Props.C20
 open Gen Lemmas
 
@@ -17,28 +19,39 @@ theorem hbit_loop (fuel : Nat) (number bit : UInt64)
     (hf : number.toNat < 2 ^ fuel) (hb : bit.toNat + fuel < 2 ^ 64) :
     let r := _cbor_highest_bit.loop0 (fuel + 1) number bit
     r.2.2 = true ∧ r.2.1 = 0 ∧ r.1.2.toNat = bit.toNat + bitlen number.toNat := by
+  -- independent of the spelling of the loop (`!= 0` / `> 0`, `>>= 1` / `/= 2`, `bit++` / `bit += 1`, branch order):
+  -- one step is unfolded, the guard is read as a fact about `number.toNat`, and the recursive call — whatever its
+  -- argument terms are — is only required to be on ⌊number/2⌋ and bit+1 *as natural numbers*
   induction fuel generalizing number bit with
   | zero =>
-    have h0 : number = 0 := by
-      apply UInt64.toNat_inj.mp; simp at hf ⊢; omega
-    subst h0
-    simp [_cbor_highest_bit.loop0, bitlen]
+    rw [_cbor_highest_bit.loop0]
+    simp only []
+    split <;> cnorm <;> (try omega)
+    have : number.toNat = 0 := by omega
+    simp [this, bitlen]
   | succ k ih =>
     rw [_cbor_highest_bit.loop0]
-    by_cases hn : number = 0
-    · subst hn; simp [bitlen]
-    · have hne : (number != 0) = true := by simpa using hn
-      simp only [hne, if_true]
-      have hnn : number.toNat ≠ 0 := fun h => hn (UInt64.toNat_inj.mp (by simpa using h))
-      have hshift : (number >>> (1 : UInt64)).toNat = number.toNat / 2 := by
-        simp [UInt64.toNat_shiftRight, Nat.shiftRight_eq_div_pow]
-      have hbit : (bit + 1).toNat = bit.toNat + 1 := by
-        rw [UInt64.toNat_add]; simp; omega
-      have := ih (number >>> (1 : UInt64)) (bit + 1) (by rw [hshift, Nat.pow_succ] at *; omega) (by omega)
-      simp only at this
-      obtain ⟨h1, h2, h3⟩ := this
-      refine ⟨by simp [h1], h2, ?_⟩
-      rw [h3, hshift, hbit, bitlen_pos _ hnn]; omega
+    simp only []
+    split <;> cnorm
+    all_goals first
+      | (have hz : number.toNat = 0 := by omega
+         simp [hz, bitlen]
+         done)
+      | (have hnn : number.toNat ≠ 0 := by omega
+         have key : ∀ (n' b' : UInt64) (r : (UInt64 × UInt64) × Nat × Bool), _cbor_highest_bit.loop0 (k + 1) n' b' = r →
+             n'.toNat = number.toNat / 2 → b'.toNat = bit.toNat + 1 →
+             r.2.2 = true ∧ r.2.1 = 0 ∧ r.1.2.toNat = bit.toNat + bitlen number.toNat := by
+           intro n' b' r hr hn hb'
+           have := ih n' b' (by rw [hn]; rw [Nat.pow_succ] at hf; omega) (by omega)
+           rw [hr] at this
+           obtain ⟨h1, h2, h3⟩ := this
+           refine ⟨h1, h2, ?_⟩
+           rw [h3, hn, hb', bitlen_pos _ hnn]; omega
+         generalize hn' : _cbor_highest_bit.loop0 _ _ _ = r
+         have := key _ _ _ hn' (by simp [UInt64.toNat_shiftRight, UInt64.toNat_div, Nat.shiftRight_eq_div_pow])
+           (by rw [UInt64.toNat_add]; simp; omega)
+         simp [this.1, this.2.1, this.2.2]
+         done)
 
 /-- `_cbor_highest_bit n` is the bit length of `n`, and its translation has no failing side condition
 (in particular the translator's fuel of 65 iterations suffices). -/
@@ -57,76 +70,78 @@ theorem C20_hbit_log2 (n : UInt64) :
   · have hnn : n.toNat ≠ 0 := fun h' => h (UInt64.toNat_inj.mp (by simpa using h'))
     simp [h, bitlen_eq_log2 _ hnn]
 
+theorem mul_small (a b : Nat) (h : a ≤ 1 ∨ b ≤ 1) (ha : a < 2 ^ 64) (hb : b < 2 ^ 64) : a * b < 2 ^ 64 := by
+  rcases h with h | h
+  · rcases Nat.le_one_iff_eq_zero_or_eq_one.mp h with h0 | h1
+    · rw [h0]; simp
+    · rw [h1]; simpa using hb
+  · rcases Nat.le_one_iff_eq_zero_or_eq_one.mp h with h0 | h1
+    · rw [h0]; simp
+    · rw [h1]; simpa using ha
+
+theorem bitlen_pos' (n : Nat) (h : 1 < n) : 0 < bitlen n := by
+  rcases Nat.eq_zero_or_pos (bitlen n) with h0 | hp'
+  · have := lt_two_pow_bitlen n; rw [h0] at this; omega
+  · exact hp'
+
 /-- the multiplication guard is sound for all 2^128 operand pairs: whenever it says "safe", the
 mathematical product fits in `size_t` -/
 theorem C20_mul_sound (a b : UInt64) (h : _cbor_safe_to_multiply a b = true) :
     a.toNat * b.toNat < 2 ^ 64 := by
-  unfold _cbor_safe_to_multiply at h
-  split at h
-  · rename_i hc
-    simp only [Bool.or_eq_true, decide_eq_true_eq] at hc
-    rcases hc with hc | hc
-    · have := UInt64.le_iff_toNat_le.mp hc
-      have hb := b.toNat_lt
-      simp at this
-      rcases Nat.le_one_iff_eq_zero_or_eq_one.mp this with h0 | h1
-      · rw [h0]; simp
-      · rw [h1]; simpa using hb
-    · have := UInt64.le_iff_toNat_le.mp hc
-      have ha := a.toNat_lt
-      simp at this
-      rcases Nat.le_one_iff_eq_zero_or_eq_one.mp this with h0 | h1
-      · rw [h0]; simp
-      · rw [h1]; simpa using ha
-  · simp only [decide_eq_true_eq] at h
-    have hle := UInt64.le_iff_toNat_le.mp h
-    have ha := (C20_hbit a).1
-    have hb := (C20_hbit b).1
-    have hla : bitlen a.toNat ≤ 64 := bitlen_le_of_lt_two_pow _ _ a.toNat_lt
-    have hlb : bitlen b.toNat ≤ 64 := bitlen_le_of_lt_two_pow _ _ b.toNat_lt
-    rw [UInt64.toNat_add, ha, hb] at hle
-    simp at hle
-    apply mul_lt_of_bitlen
-    omega
+  -- shape-independent: every `if` of the generated guard is split and every condition is read over `Nat`
+  have ha := (C20_hbit a).1
+  have hb := (C20_hbit b).1
+  have hla : bitlen a.toNat ≤ 64 := bitlen_le_of_lt_two_pow _ _ a.toNat_lt
+  have hlb : bitlen b.toNat ≤ 64 := bitlen_le_of_lt_two_pow _ _ b.toNat_lt
+  have hal := a.toNat_lt
+  have hbl := b.toNat_lt
+  revert h
+  unfold _cbor_safe_to_multiply
+  simp only []
+  repeat' split
+  all_goals (intro h; cnorm)
+  all_goals first
+    | (exact mul_small _ _ (by omega) hal hbl)
+    | (apply mul_lt_of_bitlen
+       simp [UInt64.toNat_add, UInt64.toNat_shiftLeft, ha, hb] at h
+       omega)
+    | (simp at h; done)
 
 theorem C20_mul_ok (a b : UInt64) : _cbor_safe_to_multiply.ok a b = true := by
   unfold _cbor_safe_to_multiply.ok
-  split <;> simp [(C20_hbit a).2, (C20_hbit b).2]
+  simp only []
+  repeat' split
+  all_goals simp [(C20_hbit a).2, (C20_hbit b).2]
 
 /-- the multiplication guard never refuses a product that is at most half the address space
 (so it is not vacuously sound by refusing everything) -/
 theorem C20_mul_complete_half (a b : UInt64) (h : a.toNat * b.toNat < 2 ^ 63) :
     _cbor_safe_to_multiply a b = true := by
-  unfold _cbor_safe_to_multiply
-  split
-  · rfl
-  · rename_i hc
-    simp only [Bool.or_eq_true, decide_eq_true_eq, not_or] at hc
-    have ha1 : ¬ a.toNat ≤ 1 := fun hh => hc.1 (UInt64.le_iff_toNat_le.mpr (by simpa using hh))
-    have hb1 : ¬ b.toNat ≤ 1 := fun hh => hc.2 (UInt64.le_iff_toNat_le.mpr (by simpa using hh))
-    simp only [decide_eq_true_eq]
-    apply UInt64.le_iff_toNat_le.mpr
-    have ha := (C20_hbit a).1
-    have hb := (C20_hbit b).1
-    have hla : bitlen a.toNat ≤ 64 := bitlen_le_of_lt_two_pow _ _ a.toNat_lt
-    have hlb : bitlen b.toNat ≤ 64 := bitlen_le_of_lt_two_pow _ _ b.toNat_lt
-    rw [UInt64.toNat_add, ha, hb]
-    simp
+  have ha := (C20_hbit a).1
+  have hb := (C20_hbit b).1
+  have hla : bitlen a.toNat ≤ 64 := bitlen_le_of_lt_two_pow _ _ a.toNat_lt
+  have hlb : bitlen b.toNat ≤ 64 := bitlen_le_of_lt_two_pow _ _ b.toNat_lt
+  -- the arithmetic core, over `Nat`: two operands above 1 whose product is below 2^63 have at most 64 digits together
+  have core : 1 < a.toNat → 1 < b.toNat → bitlen a.toNat + bitlen b.toNat ≤ 64 := by
+    intro ha1 hb1
     have h1 := two_pow_bitlen_le a.toNat (by omega)
     have h2 := two_pow_bitlen_le b.toNat (by omega)
     have hp : 2 ^ (bitlen a.toNat - 1) * 2 ^ (bitlen b.toNat - 1) ≤ a.toNat * b.toNat := Nat.mul_le_mul h1 h2
     rw [← Nat.pow_add] at hp
     have : 2 ^ (bitlen a.toNat - 1 + (bitlen b.toNat - 1)) < 2 ^ 63 := Nat.lt_of_le_of_lt hp h
     have := (Nat.pow_lt_pow_iff_right (by omega : 1 < 2)).mp this
-    have hpa : 0 < bitlen a.toNat := by
-      rcases Nat.eq_zero_or_pos (bitlen a.toNat) with h0 | hp'
-      · have := lt_two_pow_bitlen a.toNat; rw [h0] at this; omega
-      · exact hp'
-    have hpb : 0 < bitlen b.toNat := by
-      rcases Nat.eq_zero_or_pos (bitlen b.toNat) with h0 | hp'
-      · have := lt_two_pow_bitlen b.toNat; rw [h0] at this; omega
-      · exact hp'
+    have hpa := bitlen_pos' a.toNat ha1
+    have hpb := bitlen_pos' b.toNat hb1
     omega
+  unfold _cbor_safe_to_multiply
+  simp only []
+  repeat' split
+  all_goals cnorm
+  all_goals first
+    | rfl
+    | (have := core (by omega) (by omega)
+       simp [UInt64.toNat_add, UInt64.toNat_shiftLeft, ha, hb]
+       omega)
 
 /-- the addition guard is exact -/
 theorem C20_add_exact (a b : UInt64) :
@@ -135,33 +150,30 @@ theorem C20_add_exact (a b : UInt64) :
   unfold _cbor_safe_to_add
   have ha := a.toNat_lt
   have hb := b.toNat_lt
-  simp only [Bool.and_eq_true, Bool.or_eq_true, decide_eq_true_eq, ge_iff_le, gt_iff_lt, UInt64.le_iff_toNat_le, UInt64.lt_iff_toNat_lt,
-    UInt64.toNat_add]
+  simp only []
+  cnorm
+  simp only [UInt64.toNat_add]
   omega
 
 /-- the signalling sum is the exact mathematical sum, or 0 when an operand is 0 or the sum does not fit -/
 theorem C20_sadd (a b : UInt64) :
     (_cbor_safe_signaling_add a b).toNat =
       if a = 0 ∨ b = 0 ∨ a.toNat + b.toNat ≥ 2 ^ 64 then 0 else a.toNat + b.toNat := by
+  have hx := C20_add_exact a b
+  have hal := a.toNat_lt
+  have hbl := b.toNat_lt
   unfold _cbor_safe_signaling_add
-  by_cases ha : a = 0
-  · simp [ha]
-  by_cases hb : b = 0
-  · simp [hb]
-  have hab : ((a == 0) || (b == 0)) = false := by simp [ha, hb]
-  simp only [hab]
-  by_cases hs : _cbor_safe_to_add a b = true
-  · have := (C20_add_exact a b).mp hs
-    simp [hs, ha, hb, UInt64.toNat_add]
-    split <;> omega
-  · have hn : ¬ (a.toNat + b.toNat < 2 ^ 64) := fun h => hs ((C20_add_exact a b).mpr h)
-    simp at hs
-    simp [hs, ha, hb]
-    omega
+  simp only [hx]
+  repeat' split
+  all_goals cnorm
+  all_goals (try simp only [UInt64.toNat_add] at *)
+  all_goals omega
 
 theorem C20_sadd_ok (a b : UInt64) : _cbor_safe_signaling_add.ok a b = true := by
   unfold _cbor_safe_signaling_add.ok _cbor_safe_to_add.ok
-  split <;> simp
+  simp only []
+  repeat' split
+  all_goals simp
 
 /-- header size is the length of the shortest RFC 8949 head for the argument (1, 2, 3, 5 or 9 bytes) -/
 theorem C20_header_size (n : UInt64) :
@@ -169,9 +181,9 @@ theorem C20_header_size (n : UInt64) :
       if n.toNat ≤ 23 then 1 else if n.toNat ≤ 255 then 2 else if n.toNat ≤ 65535 then 3
       else if n.toNat ≤ 4294967295 then 5 else 9 := by
   unfold _cbor_encoded_header_size
-  simp only [UInt64.le_iff_toNat_le, decide_eq_true_eq]
   repeat' split
-  all_goals first | rfl | (simp at *; omega)
+  all_goals cnorm
+  all_goals first | rfl | omega | (simp at *; omega)
 
 -- non-vacuity: concrete instances of the hypotheses and of both guard outcomes
 example : _cbor_safe_to_multiply 0x80000000 0xFFFFFFFF = true := by decide +kernel
